@@ -7,6 +7,20 @@ ALL = ["C%02d" % i for i in range(1, 21)]
 
 # id -> (level category, technique, level text, level note, design ref)
 CHECKS = {
+    "C14": (
+        "model_checking",
+        "bounded-exhaustive enumeration of specifications x storage widths x integer encodings; serialise + reconstitute exactly as generated parsers do; complete public query dump and all short parses compared",
+        "Every specification of the C10 space on its default layout (every single optional declaration, all together, all five yacc kinds, non-ASCII names and action text) plus a wide family whose bit vectors are 1..2 words long (1, 2, 30-33, 62-65, 127-130, 200, 253, 254 tokens), built with u8, u16 and u32 storage, serialised with the fixed and the variable integer encoding through the very calls the compile-time builder makes and read back through lrpar::ctbuilder::_reconstitute. The complete public query dump (every accessor of the grammar for every index; action, goto, state_actions, state_shifts, core_reduces, reduce_only_state of every state; start state; both conflict lists with their pretty-printed form) must be identical, and so must the result of parsing every input of up to 3-4 lexemes.",
+        "Parses are only compared on (table, input) pairs on which the plain LR loop returns.",
+        "DESIGN.md 3/C14",
+    ),
+    "C20": (
+        "model_checking",
+        "exhaustive enumeration of a grammar universe x {u8,u16,u32} plus boundary families around 255 / 65535 built in watched child processes; sizes, indices, query dumps and parses compared across widths",
+        "Every grammar of the quick universe is built in the three widths and the complete query dump (grammar, table, state graph) and all short parses must agree. Six boundary families (c rules, c tokens, c productions, one production of c symbols, exactly c LR states, a lexer of c rules) for c = 250..260 (thorough also 65530..65540) are built in every width inside a watched child: either the build succeeds, reports exactly the model's sizes, hands out only in-range indices and agrees with the u32 build, or it panics with one of the documented refusals; acceptance must be monotone in the width. Anything else (other panic, hang, wrapped size) is a violation.",
+        "State numbers may differ between widths only as far as known finding C20-b allows (identical after canonical renumbering). u32 boundaries are out of reach.",
+        "DESIGN.md 3/C20",
+    ),
     "C10": (
         "model_checking",
         "bounded-exhaustive enumeration of abstract grammar specifications x concrete renderings; every accessor compared with the abstract specification, spans sliced out of the text, digest equal across all renderings",
